@@ -63,7 +63,8 @@ def norm(keys):
 
 def key_of(item):
     """an item reduced to what identifies it (for comparing displays across modes)"""
-    return json.dumps({k: v for k, v in item.items() if k not in ('text',)}, sort_keys=True)
+    # (free-form output is identified by its kind; a passed-through line by its text as well)
+    return json.dumps({k: v for k, v in item.items() if k != 'text' or item.get('k') == 'junk'}, sort_keys=True)
 
 
 def run_tool(args, stdin_data=None, feeder=None, timeout=60):
@@ -98,11 +99,12 @@ def one_case(case):
     text = ''.join(chunks)
     n = case['n']
     logf = os.path.join(tmp, 'log%d.txt' % n)
-    with open(logf, 'w', encoding='utf-8') as f:
-        f.write(text)
+    enc = case.get('enc', 'utf-8')
+    with open(logf, 'wb') as f:
+        f.write(text.encode(enc))
     sched = os.path.join(tmp, 'sched%d.json' % n)
     json.dump({'chunks': [[case['delays'][i], c] for i, c in enumerate(chunks)], 'status': status,
-               'stdout': [[0, 'first'], [len(chunks), 'last']], 'linger': case['linger'], 'close_err': case.get('close_err', False)}, open(sched, 'w'))
+               'stdout': [[0, 'first'], [len(chunks), 'last']], 'linger': case['linger'], 'close_err': case.get('close_err', False), 'enc': enc}, open(sched, 'w'))
     obs = {}
     rc, out, err = run_tool(['-l', logf], b'quit\n')
     obs['file'] = (rc, out, err)
@@ -112,7 +114,7 @@ def one_case(case):
             for i, c in enumerate(chunks):
                 if case['delays'][i]:
                     time.sleep(case['delays'][i])
-                stdin.write(c.encode('utf-8'))
+                stdin.write(c.encode(enc))
                 stdin.flush()
         except BrokenPipeError:
             pass
@@ -209,8 +211,19 @@ def run(ctx):
                               'extra': EXTRA[n % len(EXTRA)], 'delays': [0.01 if (n % 3 == 0 and i) else 0 for i in range(len(chunks))],
                               'linger': (1.3 if n % 4 else 2.2) if close_err else (0 if n % 2 else 0.03), 'close_err': close_err,
                               'want': want2, 'session': -1})
+        # streams that are not valid UTF-8 (every character below is one byte): the three modes must still show the same
+        # thing; there is no line-by-line reference for these, file mode is the reference
+        for j, (b1, b2) in enumerate([('caf\xe9 starting up', 'caf\xe9_manager_v1'), ('\xff\xfe\xfd', 'x\x80y'), ('ok \xc3( broken', '\xe2\x82'),
+                                      ('\xf0\x9f\x98', 'tail \xc0\xaf')][:ctx.pick(2, 4)]):
+            blines = [b1, '[1000.100]  -> wl_display@1.get_registry(new id wl_registry@2)',
+                      '[1000.200]  -> wl_registry@2.bind(1, "%s", 1, new id [unknown]@3)' % b2, 'more ' + b1, '[1000.300]  -> wl_display@1.sync(new id wl_callback@4)']
+            btext = '\n'.join(blines) + ('\n' if j % 2 == 0 else '')
+            for chunks in chunkings(btext, r, 2):
+                n = len(cases)
+                cases.append({'tmp': tmp, 'n': n, 'lines': blines, 'chunks': chunks, 'status': statuses[n % len(statuses)], 'extra': [],
+                              'delays': [0] * len(chunks), 'linger': 0, 'want': None, 'session': -2, 'enc': 'latin-1'})
         if ctx.quick:
-            keep = ([c for c in cases if c['session'] != -1] + ctx.rnd.sample([c for c in cases if c['session'] == -1 and not c['close_err']], 20)
+            keep = ([c for c in cases if c['session'] not in (-1,)] + ctx.rnd.sample([c for c in cases if c['session'] == -1 and not c['close_err']], 20)
                     + ctx.rnd.sample([c for c in cases if c['session'] == -1 and c['close_err']], 6))
             cases = [dict(c, n=i) for i, c in enumerate(keep)]
         with ThreadPoolExecutor(max_workers=12) as ex:
@@ -219,7 +232,7 @@ def run(ctx):
         for case, obs in zip(cases, results):
             rep.case(json.dumps([case['chunks'], case['status'], case['extra']]))
             rp = {'kind': 'modes', 'chunks': case['chunks'], 'status': case['status'], 'extra': case['extra'], 'delays': case['delays'], 'want': case['want'],
-                  'linger': case['linger'], 'close_err': case.get('close_err', False)}
+                  'linger': case['linger'], 'close_err': case.get('close_err', False), 'enc': case.get('enc', 'utf-8')}
             shown = {}
             for mode in ('file', 'pipe', 'run'):
                 rc, out, err = obs[mode]
@@ -241,6 +254,8 @@ def run(ctx):
                 # which lines were processed, for TLC: every displayed item that stems from an input line
                 runs.append({'mode': mode, 'status': case['status'], 'ret': rc if rc is not None else -1,
                              'stream': [], 'delivered': []})
+            if case['want'] is None:
+                case = dict(case, want=shown['file'])
             for mode in ('file', 'pipe', 'run'):
                 if shown[mode] != case['want']:
                     first = next((i for i, (a, b) in enumerate(zip(shown[mode], case['want'])) if a != b), min(len(shown[mode]), len(case['want'])))
@@ -296,7 +311,7 @@ def replay(ctx, data):
     tmp = tempfile.mkdtemp(prefix='c13r-', dir=os.path.join(tlc.OUT, 'tmp'))
     try:
         case = {'tmp': tmp, 'n': 0, 'lines': [], 'chunks': data['chunks'], 'status': data['status'], 'extra': data['extra'],
-                'delays': data['delays'], 'linger': data.get('linger', 0), 'close_err': data.get('close_err', False)}
+                'delays': data['delays'], 'linger': data.get('linger', 0), 'close_err': data.get('close_err', False), 'enc': data.get('enc', 'utf-8')}
         obs = one_case(case)
         for mode in ('file', 'pipe', 'run'):
             rc, out, err = obs[mode]
